@@ -186,6 +186,30 @@ let dispatch name =
   | "g2_encode" -> let o = robj () in plist pqlist (Exec.q_g2_encode [o])
   | "g2_decode" -> let ls = rlist rqlist in
     (match Exec.q_g2_decode (nat_of_int (Stdlib.List.length ls)) ls with Some os -> out "Some"; plist pobj os | None -> out "None")
+  | "eval_grid" -> let tol = rq () in let o = robj () in let ls = rlist rqlist in
+    pres (plist pqlist) (Exec.q_obj_eval_grid tol o ls)
+  | "eval_pointwise" -> let tol = rq () in let o = robj () in let ls = rlist rqlist in
+    pres (plist pqlist) (Exec.q_obj_eval_pointwise tol o ls)
+  | "stl_write_surface" -> let tol = rq () in let o = robj () in let has = rbool () in let n0 = rnat () in let n1 = rnat () in
+    pres (fun tris -> pnat (Exec.q_stl_binary_count tris); plist (fun ((a, b), c) -> pqlist a; pqlist b; pqlist c) tris)
+      (Exec.q_stl_write_surface tol o (if has then Some (n0, n1) else None))
+  | "stl_params" -> let p = rnat () in let kn = rqlist () in let a = rq () in let b = rq () in let has = rbool () in let n = rnat () in
+    pres pqlist (Exec.q_stl_params p kn a b (if has then Some n else None))
+  | "spl_lines" -> let acc = rq () in let o = robj () in plist pqlist (Exec.q_spl_lines acc o)
+  | "spl_decode" -> let tol = rq () in let ls = rlist rqlist in
+    (match Exec.q_spl_decode tol ls with Some o -> out "Some"; pobj o | None -> out "None")
+  | "patch_faces" -> let start = rnat () in let nx = rnat () in let ny = rnat () in let nz = rnat () in
+    let p3 ((i, j), k) = pnat i; pnat j; pnat k in
+    plist (fun (f : Faces.face) -> p3 f.Faces.fn0; p3 f.Faces.fn1; p3 f.Faces.fn2; p3 f.Faces.fn3; pnat f.Faces.owner;
+                                    (match f.Faces.neighbor with Some n -> pint (int_of_nat n) | None -> pint (-1)))
+      (Exec.x_patch_faces start ((nx, ny), nz))
+  | "cell_numbers" -> let shs = rlist (fun () -> let a = rnat () in let b = rnat () in let c = rnat () in ((a, b), c)) in
+    let (nss, n) = Exec.x_cell_numbers_model shs in pnat n; plist (plist pnat) nss
+  | "catalogue" -> let d = rnat () in let ps = rlist rnatlist in
+    let ((counts, bnd), faces) = Exec.x_catalogue d ps in
+    plist pnat counts; plist (plist pnat) bnd; plist (fun (k, hs) -> plist pnat k; plist (plist pnat) hs) faces
+  | "cat_lookup" -> let d = rnat () in let ps = rlist rnatlist in let q = rnatlist () in
+    popt (plist pnat) (Exec.x_cat_lookup d ps q)
   | _ -> out ("UNKNOWN " ^ name)
 
 let () =
